@@ -860,13 +860,11 @@ def run(ck):
                 for pi in range(n_pres):
                     I = F.new_interner()
                     P = F.CoqPrinter(S, I)
-                    P.I = I
-                    schema_lit = P.schema()      # interns every schema name first
+                    P.schema()                   # interns every schema name first
                     tables = case_tables(S, I, T)
-                    plan = Plan(rng_fork(rng), S, T, P)
-                    # the same abstract value under different presentations:
-                    # the plan is re-derived with the same sub-seed per value
-                    plan.rng = _Sub(value, vi)
+                    # the same abstract value under different presentations: the plan (nil vs
+                    # absent, xsi:type, string contents) is re-derived from a per-value sub-seed
+                    plan = Plan(_Sub(value, vi), S, T, P)
                     w, expected = plan.reply("op%dResponse" % k, t, value)
                     pname, opts = pick_profile(rng)
                     wr = Writer(rng, **opts)
@@ -899,19 +897,7 @@ def run(ck):
     preds = ["reply_agrees", "reply_spec_ok", "writer_ok", "infoset_agrees", "theorem_instance",
              "fun c => negb (case_guard c)"] + \
             ["fun c => negb (has_flag %d%%N c)" % f for f in FLAGS]
-    import os
-    if os.environ.get("C02_GUARD_STATS"):
-        preds += [
-            "fun c => match case_wt c with Some wt => match flat_attrs (c_schema c) wt with [] => true | _ => false end | None => false end",
-            "fun c => match build (c_raw c) with [root] => consistent root | _ => false end",
-            "fun c => match build (c_raw c) with [root] => doc_ok [] (promote_node root) | _ => false end",
-            "fun c => match case_flags c with [] => true | _ => false end",
-            "fun c => match build (c_raw c) with [root] => match erase [] root with Some x => match spec_reply c with Some _ => match case_wt c with Some wt => match ref_reply (c_schema c) (c_names c) (c_uris c) (c_kinds c) (c_wq c) wt x with Some _ => true | None => false end | None => false end | None => true end | None => false end | _ => false end",
-        ]
     res = ck.run_cases("reply", PRE, "case", cases, preds, shard=40)
-    if os.environ.get("C02_GUARD_STATS"):
-        for p_ in preds[-5:]:
-            print("GUARDSTAT", len(res[p_]), p_[:90])
     judge(ck, cases, meta, res, proof_ok)
 
 
@@ -938,26 +924,34 @@ def _fingerprint(v):
     return "O%s{%s}" % (v.ty, ",".join(k + "=" + _fingerprint(x) for k, x in v.fields))
 
 
-def rng_fork(rng):
-    return rng
-
-
 def judge(ck, cases, meta, res, proof_ok):
     flagged = dict((f, set(res["fun c => negb (has_flag %d%%N c)" % f])) for f in FLAGS)
     for f in FLAGS:
         ck.extra["cases_in_class_%d" % f] = len(flagged[f])
-    # self-checks of the check (independent of the implementation)
-    for pred in ("writer_ok", "infoset_agrees"):
+    # self-checks of the check.  They do not involve the implementation's outputs, only the
+    # constants regenerated from it (coq/Gen/C02Tables.v): with the standard constants and a
+    # checked proof a failure is a bug of the check (harness error, not a verdict); otherwise the
+    # implementation's constants changed and the failure is reported with the verdict.
+    T = _tables()
+    std = {"uri_env11": ENV11, "uri_env12": ENV12, "uri_xsi": F.XSI, "uri_xml": XMLNS}
+    tables_changed = (T.code_strings() != std or sorted(T.skipped_uris()) != sorted(T.SKIP_CANDIDATES[:7])
+                      or T.reserved_words() != [("class", "cls"), ("def", "dfn")])
+    strict = proof_ok is not False and not tables_changed
+    broken = []
+    for pred in ("writer_ok", "infoset_agrees", "theorem_instance"):
         if res[pred]:
             i = res[pred][0]
-            raise RuntimeError("self-check %s failed on case %d (a bug in the check, not a verdict):\n%s\nexpected %s"
-                               % (pred, i, meta[i]["reply"].decode("utf-8"), meta[i]["expected"]))
+            if strict:
+                raise RuntimeError("self-check %s failed on case %d (a bug in the check, not a verdict):\n%s\n"
+                                   "expected %s" % (pred, i, meta[i]["reply"].decode("utf-8"), meta[i]["expected"]))
+            broken.append((pred, len(res[pred])))
     ck.extra["cases_inside_theorem_guard"] = len(res["fun c => negb (case_guard c)"])
     ck.extra["theorem_instance_failures"] = len(res["theorem_instance"])
-    if res["theorem_instance"]:
-        i = res["theorem_instance"][0]
-        raise RuntimeError("a proved theorem fails on an instance (case %d): the Coq development is inconsistent "
-                           "with its own evaluation\n%s" % (i, meta[i]["reply"].decode("utf-8")))
+    if tables_changed:
+        ck.unproved("constants of the reply path read from the implementation changed (envelope / xsi / xml "
+                    "namespaces, AttrList.skip, umx.core.reserved): the model is no longer the one the theorems are about",
+                    {"code_strings": T.code_strings(), "skipped": T.skipped_uris(), "reserved": T.reserved_words(),
+                     "self_checks_failing": broken})
     spec_bad = set(res["reply_spec_ok"])
     debatable_seen = {}
     for i in sorted(spec_bad):
@@ -990,7 +984,7 @@ def judge(ck, cases, meta, res, proof_ok):
                       if not any(i in flagged[f] for f in FLAGS))
     dis = [i for i in res["reply_agrees"] if i not in unexplained]
     import os
-    dump = os.environ.get("C02_DUMP")
+    dump = os.environ.get("C02_DUMP")        # development aid: write the disagreeing cases as .v files
     if dump:
         os.makedirs(dump, exist_ok=True)
         for n, i in enumerate(res["reply_agrees"][:10]):
